@@ -14,6 +14,7 @@
 -/
 import TrVerif.Proofs.Assembly
 import TrVerif.Proofs.Sort
+import TrVerif.Proofs.DataFacts
 namespace Tr
 
 theorem singleReverse_valid {cx : Ctx} {T : List Conn} (usable : Nat → Bool)
@@ -75,5 +76,48 @@ theorem C01_modulo_cleanup (ds : Dataset) (cs : ConnSet) (p : Params) (accessFoo
 theorem connSetOf_sorted (ds : Dataset) (sc : Scenario) : SortedRev (ds.connSetOf sc).rev := by
   simp only [Dataset.connSetOf, mkConnSet, Dataset.revAll]
   exact List.Pairwise.sublist List.filter_sublist (sorted_isort revLt revLt_strictWeak ds.conns)
+
+/-- **C01 at dataset level (modulo the clean-up lemma).**  For every dataset with unique trip
+    identifiers and arrival times non-decreasing along each trip, every scenario, every query
+    with a non-negative minimum waiting time (the parser normalises it so), both time types:
+    a route returned by `calculateSingle` is an executable itinerary on the timetable `ds.conns`,
+    using footpath records of the data, starting with a walk the router offers within the access
+    maximum and ending with one it offers within the egress maximum, every boarding respecting
+    the minimum waiting time in force for that trip (0 for `transferable` lines). -/
+theorem C01_dataset (ds : Dataset) (hwf : WFSchedule ds) (p : Params) (hmw : 0 ≤ p.minWait)
+    (hclean : ∀ depT arrT, CleanupPreserves
+      (mkCtx (ds.restrict (ds.connSetOf (ds.scenarioOf p))) p (ds.connSetOf (ds.scenarioOf p))
+        (routerLookup ds.access p.maxAccess) (routerLookup ds.egress p.maxEgress) depT arrT)
+      (ds.connSetOf (ds.scenarioOf p)).rev)
+    {r : Route} (h : calculateSingle ds p = .ok r) :
+    ValidItinerary ds.conns ds.foot (routerLookup ds.access p.maxAccess) (routerLookup ds.egress p.maxEgress)
+      (ds.mwOfTrip p) r := by
+  have hsub := connSetOf_rev_sub ds (ds.scenarioOf p)
+  have hm : ArrMono (ds.connSetOf (ds.scenarioOf p)).rev :=
+    fun a ha b hb => conns_arrMono hwf a (hsub a ha) b (hsub b hb)
+  exact C01_modulo_cleanup (ds.restrict (ds.connSetOf (ds.scenarioOf p))) (ds.connSetOf (ds.scenarioOf p)) p _ _
+    ds.conns hsub (connSetOf_sorted ds _) hm hmw (ds.mwOfTrip p)
+    (fun c hc => conns_effWait hwf p c (hsub c hc)) hclean h
+
+/-- the clean-up is the identity on journeys in which it finds nothing to rewrite: for such
+    answers C01 holds outright -/
+theorem cleanup_identity (ds : Dataset) (j : List JStep) (h : searchJourney ds [] j 0 [] = none) :
+    optimizeJourney ds j = some { journey := j } := by
+  simp [optimizeJourney, optimizeFuel, optimizeLoop, h]
+
+/-! non-vacuity: the hypotheses are met by the example dataset of `Props/C11.lean` -/
+example : WFSchedule exDs := by
+  refine ⟨by decide, ?_⟩
+  intro tr htr i j hij hj
+  simp [exDs] at htr
+  rcases htr with rfl | rfl
+  · simp at hj
+    have : i = 0 ∨ i = 1 := by omega
+    have : j = 0 ∨ j = 1 := by omega
+    rcases ‹i = 0 ∨ i = 1› with rfl | rfl <;> rcases ‹j = 0 ∨ j = 1› with rfl | rfl <;> simp_all
+  · simp at hj
+    have : i = 0 ∨ i = 1 := by omega
+    have : j = 0 ∨ j = 1 := by omega
+    rcases ‹i = 0 ∨ i = 1› with rfl | rfl <;> rcases ‹j = 0 ∨ j = 1› with rfl | rfl <;> simp_all
 
 end Tr
